@@ -225,8 +225,49 @@ class WNE(_Win):
         return (x, y), ({} if w is None else {"weight": w})
 
 
+def auroc_compute_variant():
+    """Which compute() the tree under test has, decided by the two D6 witnesses:
+    'code'  -- zero scores in the tail read as unfilled AND squeeze() of a one-sample window (V_code),
+    'cfix'  -- both repaired (fixes/window-auroc-compute.patch: whole buffer, weights 0 in unfilled slots),
+    'mixed' -- only one of them (no model variant: the V_code model is used and the check reports)."""
+    def run(n, batches, T=1):
+        m = M.WindowedBinaryAUROC(max_num_samples=n, num_tasks=T)
+        for x, y in batches:
+            m.update(torch.tensor(x), torch.tensor(y))
+        try:
+            return m.compute()
+        except Exception:
+            return None
+    z = run(4, [([0.9, 0.8, 0.7, 0.0], [0.0, 1.0, 1.0, 1.0]), ([0.5, 0.4, 0.3], [0.0, 1.0, 0.0])])
+    one = run(4, [([0.9], [0.0])])
+    two = run(1, [([[0.9], [0.3]], [[0.0], [1.0]])], T=2)
+    zero_fixed = z is not None and abs(float(z) - 0.25) < 1e-6
+    sq_fixed = (one is not None and one.ndim == 0 and abs(float(one) - 0.5) < 1e-6
+                and two is not None and tuple(two.shape) == (2,))
+    zero_code = z is not None and abs(float(z) - 0.5) < 1e-6
+    sq_code = one is None and two is not None and two.ndim == 0
+    if zero_fixed and sq_fixed:
+        return "cfix"
+    if zero_code and sq_code:
+        return "code"
+    return "mixed"
+
+
 class WAUROC(_Win):
-    name, cls, model, ref_cls = "WindowedBinaryAUROC", M.WindowedBinaryAUROC, "wauroc", M.BinaryAUROC
+    name, cls, ref_cls = "WindowedBinaryAUROC", M.WindowedBinaryAUROC, M.BinaryAUROC
+    _model = None
+
+    @property
+    def model(self):
+        """the Coq model mirroring the tree under test: current compute() or the repaired one"""
+        if self._model is None:
+            self.variant = auroc_compute_variant()
+            self._model = "wauroc_cfix" if self.variant == "cfix" else "wauroc"
+        return self._model
+
+    @model.setter
+    def model(self, v):
+        self._model = v
     granularity = "sample"
     zero_weights = False
     scalar_weight = False
